@@ -27,12 +27,17 @@ RULE = ("base cases: a 12-60 line UTF-8 file opened in the parent with RandomLin
         "MemoryMappedRandomLineAccessFile, RecordFile, MemoryMappedRecordFile or MapAccessFile (dict / index file); the "
         "parent reads before forking (the inherited handle has a position and a filled buffer), then 1-8 children "
         "(os.fork, multiprocessing.Process, one level of grandchildren) and the parent read concurrently: random "
-        "indices, negative indices, slices, full iterations (40-120 reads per process). Each base case: dry run, one run "
+        "indices, negative indices, slices, full iterations (40-120 reads per process); in a quarter of the base cases a second thread of the parent is held in the middle of a read while the children are forked. Each base case: dry run, one run "
         "per (executed statement of the seek/read path, occurrence) with a 120 ms delay in the parent or in the "
         "children, random 2-3 delay combinations, and one run under strace -f for the descriptor-ownership checker. "
         "distinct_nontrivial = distinct (base case, delay plan) executions with >=2 processes reading.")
 ASSUMPTIONS = [
-    "reference = the file's lines as written by the harness (MapAccessFile returns the line with its terminator)",
+    "reference = the file's lines as written by the harness (lines with carriage returns included); for MapAccessFile, which "
+    "opens its file with newline translation, the reference is what the same object returned in the parent before any fork "
+    "(the statement's own yardstick: the line a single process reads)",
+    "a second thread of the parent may be inside a read while the main thread forks (it is held at a statement of the "
+    "library, never inside a C-level I/O call); two threads of one process reading through one handle at the same time is "
+    "not claimed by the statement and not exercised",
     "strace oracle: a process 'owns' a descriptor iff the openat that produced it was issued by that process (threads "
     "created with CLONE_FILES share their creator's table); reads through memory maps issue no system calls and have "
     "a per-process position, so only the buffered variants are visible to this oracle",
@@ -66,13 +71,19 @@ def gen_base(rng, tier, index):
             "workers": 2, "fork_style": ["os.fork", "mp", "grand"][index % 3], "reads": rng.choice([40, 80, 120]),
             "parent_reads_before": rng.choice([0, 3, 10]), "seed": rng.randrange(1 << 20),
             "map_from_file": rng.random() < 0.5, "pace": rng.choice([0, 0, 0.0005]), "calls": [],
-            "first_follows_parent": index % 2 == 0}
+            "first_follows_parent": index % 2 == 0,
+            "thread_reads_during_fork": (index // 4) % 9 if index % 4 == 1 else None}
 
 
 def findings(case, result, res):
     fs, total, nprocs, done = forkread.read_findings(case, result)
     res.count("reads_compared", total)
     res.count("reading_processes", nprocs)
+    for e in result.get("events", []):
+        if e["ev"] == "side_thread_gated":
+            res.count("runs_forking_while_a_parent_thread_is_inside_a_read" if e.get("gated") else "runs_where_the_parent_thread_was_not_held")
+            if e.get("gated"):
+                res.add_to("statements_the_parent_thread_was_held_at", "%s+%s" % tuple(e["site"]))
     if not done and result.get("status") == "completed":
         fs.append(("workload-incomplete", "the workload ended without its final event"))
     return [("forkread", m, s) for m, s in fs]
